@@ -20,7 +20,10 @@ RULE_TEXT = (
     "C13.a=C03.a; C13.b every fake cursor of a connection holds the connection's own engine handle (object identity in "
     "the abstract heap), also via commit()/rollback(); C13.c traces of COMMIT/ROLLBACK under both no-transaction "
     "messages return the success status, other TransactionException re-raised; C13.d commit()/rollback() run the "
-    "texts COMMIT/ROLLBACK; no generated statement is BEGIN/COMMIT/ROLLBACK."
+    "texts COMMIT/ROLLBACK; no generated statement is BEGIN/COMMIT/ROLLBACK; C13.e the only callers of "
+    "begin/commit/rollback are the public commit()/rollback(); C13.f no other engine cursor is opened while a statement "
+    "is carried out; C13.g no generated statement is CHECKPOINT / VACUUM / a checkpoint PRAGMA (refused while another "
+    "session has an open write transaction), also on an instance with db_path."
 )
 TRUSTED = ["CPython ast", "DuckDB: transaction state belongs to one cursor; statements outside BEGIN autocommit"]
 
@@ -114,7 +117,7 @@ def rule_no_tx_mapping(ctx):
 def rule_no_implicit_tx(ctx):
     prog = ctx.prog
     n = 0
-    for kind in all_kinds():
+    for kind in [*all_kinds(), "CREATE DATABASE @db_path"]:
         if kind in ("BEGIN", "COMMIT", "ROLLBACK"):
             continue
         for tr in traces(prog, kind):
@@ -132,6 +135,18 @@ def rule_no_implicit_tx(ctx):
                     ctx.violation("C13.d", "cursor", "FakeSnowflakeCursor._execute", f"{kind}: {head}", "fakesnow/cursor.py",
                                   f"executing {kind} makes fakesnow run `{head}` on the session's engine connection: it would end or open "
                                   f"the user's transaction")
+                # engine-wide maintenance statements are refused (or wait) while ANY other connection has an open write
+                # transaction: a session's autocommit statement would fail only because another session is between BEGIN and
+                # COMMIT — isolation between connections
+                words = head.split(" ")
+                maint = words[0] in ("CHECKPOINT", "VACUUM") or words[:2] == ["FORCE", "CHECKPOINT"] or (
+                    words[0] == "PRAGMA" and "checkpoint" in text_of(sqlv).lower())
+                ctx.ob("C13.g", f"{kind}: generated statement `{head[:30]}` does not depend on other sessions' open transactions", not maint, "fakesnow/cursor.py")
+                if maint:
+                    ctx.violation("C13.g", "cursor", "FakeSnowflakeCursor._execute", f"{kind}: {head}", f"fakesnow/cursor.py:{getattr(site, 'lineno', 0)}",
+                                  f"executing {kind} makes fakesnow run `{head}`: DuckDB refuses (or blocks) a checkpoint while another connection "
+                                  f"has an open write transaction, so this autocommit statement fails only because another session is between "
+                                  f"BEGIN and COMMIT")
     ctx.floor("C13.d engine statements", n, 60)
 
 
